@@ -22,6 +22,6 @@ print(name, 'DETECTED' if r.get('detected') else 'MISSED', [[x['signature'] for 
 PY
 done
 for d in benign/C*; do
-  id=$(basename $d)
-  sh tools/benigneval.sh $id $(pwd)/$d/benign.diff | head -1
+  name=$(basename $d); id=${name%%-*}
+  echo "$name: $(sh tools/benigneval.sh $id $(pwd)/$d/benign.diff | head -1)"
 done
